@@ -448,6 +448,13 @@ def s_expose_field_oddities(r):
     return _src(f, use) if r.random() < 0.5 else f
 
 
+def s_expose_field_only(r):
+    """A bad @exposeField in the extension as the ONLY error of the project (the sources do not touch exposed fields)."""
+    f = s_expose_field_oddities(random.Random(r.random()))
+    f.pop("src/extra.ts", None)
+    return f
+
+
 def s_config_variants(r):
     f = base(r.random() < 0.5)
     cfg = json.loads(f["isograph.config.json"])
@@ -506,7 +513,7 @@ SHAPES = [s_valid_base, s_self_recursive_field, s_mutually_recursive_fields, s_r
           s_pointer_to_abstract, s_pointer_bad_target, s_deep_nesting, s_deep_client_chain, s_many_selections, s_many_fields,
           s_huge_ints, s_empty_and_odd_files, s_schema_without_query, s_schema_definition_block, s_duplicate_schema_things,
           s_schema_dangling, s_schema_odd_kinds, s_entrypoint_oddities, s_directive_oddities, s_refinement_oddities,
-          s_client_field_on_odd_parent, s_name_clashes, s_variable_oddities, s_argument_oddities, s_expose_field_oddities,
+          s_client_field_on_odd_parent, s_name_clashes, s_variable_oddities, s_argument_oddities, s_expose_field_oddities, s_expose_field_only,
           s_config_variants, s_link_refetch_oddities, s_loadable_shapes, s_updatable_shapes, s_unicode_and_descriptions]
 HEAVY = {"s_deep_nesting", "s_deep_client_chain", "s_many_selections", "s_many_fields"}
 
